@@ -188,20 +188,53 @@ func workerMain(props map[string]bool, opts map[string]string) {
 }
 
 type proc struct {
-	cmd *exec.Cmd
-	in  io.WriteCloser
-	out *bufio.Reader
+	cmd  *exec.Cmd
+	in   io.WriteCloser
+	out  *bufio.Reader
+	errs *tailWriter
+}
+
+// tailWriter forwards to os.Stderr and keeps the first 6000 bytes written (the head of a Go fatal error / race report)
+type tailWriter struct {
+	mu  sync.Mutex
+	buf []byte
+}
+
+func (t *tailWriter) Write(b []byte) (int, error) {
+	t.mu.Lock()
+	if len(t.buf) < 6000 {
+		t.buf = append(t.buf, b...)
+	}
+	t.mu.Unlock()
+	return os.Stderr.Write(b)
+}
+func (t *tailWriter) String() string { t.mu.Lock(); defer t.mu.Unlock(); return string(t.buf) }
+
+// runtimeRace: the Go runtime itself detected unsynchronised concurrent access inside the library (the map
+// implementation's "concurrent map" fatal errors, or a race-detector report): sound evidence, reproducible or not
+func runtimeRace(stderr string) string {
+	for _, sig := range []string{"fatal error: concurrent map", "WARNING: DATA RACE"} {
+		if i := strings.Index(stderr, sig); i >= 0 && strings.Contains(stderr[i:], "AsaiYusuke/jsonpath") {
+			e := stderr[i:]
+			if len(e) > 2500 {
+				e = e[:2500]
+			}
+			return e
+		}
+	}
+	return ""
 }
 
 func startProc(args []string) (*proc, error) {
 	cmd := exec.Command(os.Args[0], args...)
-	cmd.Stderr = os.Stderr
+	tw := &tailWriter{}
+	cmd.Stderr = tw
 	in, _ := cmd.StdinPipe()
 	outp, _ := cmd.StdoutPipe()
 	if err := cmd.Start(); err != nil {
 		return nil, err
 	}
-	return &proc{cmd: cmd, in: in, out: bufio.NewReaderSize(outp, 1<<20)}, nil
+	return &proc{cmd: cmd, in: in, out: bufio.NewReaderSize(outp, 1<<20), errs: tw}, nil
 }
 
 func (p *proc) kill() {
@@ -329,8 +362,16 @@ func dispatch(input io.Reader, logPath string, workerArgs []string, nworkers, ba
 				}
 				// the batch killed or hung the worker: find the culprit(s) one case at a time
 				p.kill()
+				race := runtimeRace(p.errs.String())
 				p = nil
 				mu.Lock()
+				if race != "" && crashProp == "C06" {
+					sum.Crashes++
+					if sum.Counters["violations:C06:runtime-detected-concurrent-access"] == 0 {
+						sum.Viol = append(sum.Viol, violation{Prop: "C06", Kind: "runtime-detected-concurrent-access", Text: "(a batch of schedules)", Detail: "the Go runtime killed the process: " + race, Sig: "crash-race", Case: func() string { in, _ := decodeLine(b[0]); return string(in) }()})
+					}
+					sum.Counters["violations:C06:runtime-detected-concurrent-access"]++
+				}
 				enough := sum.Crashes >= 3
 				if enough {
 					sum.Counters["cases-skipped-after-3-confirmed-crashes"] += len(b)
